@@ -134,6 +134,22 @@ def check_one(inp):
     elif fn == 'initialize_port_impl':
         for label, p in each(lambda l, p: l.endswith('/mc')):
             diff(label, lines_of(P.initialize_port_impl(p, sfns, fct)), S.initialize_port_lines(p, sfns, fct))
+    elif fn == 'create_cpp_portitf':
+        from dznpy.text_gen import GeneratedContent
+        gc = [GeneratedContent(f'f{k}.hh', '', ns_ids_t('Dzn.Support')) for k in range(5)]
+        sfs = C.SupportFiles(gc[0], gc[1], gc[2], gc[3], GeneratedContent('mcs.hh', '', ns_ids_t('Other.Mcs')), gc[4])
+        for label, p in each():
+            dzn = p.dzn_port_itf
+            r = P.create_cpp_portitf(dzn, scope, sfns, enc, sfs)
+            diff(label, S.portitf_view(r, dzn, scope), S.portitf_expectation(dzn, scope, sfns, enc, sfs))
+    elif fn in ('create_facilities', 'create_facilities_check_fn'):
+        for origin in (C.FacilitiesOrigin.CREATE, C.FacilitiesOrigin.IMPORT):
+            if fn == 'create_facilities':
+                diff(origin.name, S.facilities_view(P.create_facilities(origin, scope), scope),
+                     S.facilities_expectation(origin, scope))
+            else:
+                diff(origin.name, S.facilities_check_view(P.create_facilities_check_fn(scope, origin), scope),
+                     S.facilities_check_expectation(scope, origin))
     elif fn == 'create_final_construct_fn':
         prov = [(l, p) for l, p in ports.items() if p.dzn_port_itf.port.direction == ast.PortDirection.PROVIDES]
         reqs = [(l, p) for l, p in ports.items() if p.dzn_port_itf.port.direction == ast.PortDirection.REQUIRES]
